@@ -126,6 +126,11 @@ CHECKS = {
          "TLA+ model checking of the server protocol machine + trace validation of recorded HTTP exchanges"),
 }
 
+POOLED = {"C01", "C02", "C05", "C06", "C07", "C08", "C09", "C10", "C11", "C12", "C15", "C16", "C17", "C18"}
+DRESSED = {"C03", "C04", "C05", "C09", "C13", "C14", "C16"}
+BUFFERED = {"C07", "C11", "C12"}
+
+
 def main():
     ids = [json.loads(l)["id"] for l in open(os.path.join(ROOT, "properties.jsonl"))]
     try:
@@ -150,6 +155,15 @@ def main():
     for pid in ids:
         if pid in CHECKS and pid in props.PLANS:
             cat, ref, text, tech = CHECKS[pid]
+            if pid in POOLED:
+                text += " Inputs also come from the shared pool of all checks' generators (verifpy/universe.json, DESIGN.md 9.7)."
+            if pid in DRESSED:
+                text += (" The oracle families are also converted in other dresses (CRLF, trailing blanks, a legend below, another "
+                         "scale); the trace specification checks the dress and evaluates the same oracle (DocTrace!Dressed).")
+            if pid in BUFFERED:
+                text += (" Histories of one kept buffer object (render, write cells, render again at other scales) are validated "
+                         "against Buffer.tla by BufferTrace.tla.")
+                tech += " + trace validation of buffer-object histories (Buffer.tla)"
             m["checks"].append({
               "property_id": pid,
               "quick_cmd": "./check %s --tier quick" % pid,
